@@ -292,7 +292,7 @@ def segment_scan(tree, x, reach, method, complex_rays):
 class Measure(object):
     """What one element of one case yields."""
     __slots__ = ('in_scope', 'skip', 'exact', 'value', 'err', 'S', 'floor', 'est', 'final_step', 'chat0', 'cn_abs',
-                 'rho_valid', 'W', 'nsteps', 'cancel_free', 'noise', 'full_window', 'trunc', 'E', 'P', 'rad',
+                 'rho_valid', 'W', 'nsteps', 'cancel_free', 'noise', 'cn_noise', 'full_window', 'trunc', 'E', 'P', 'rad',
                  'chosen_beyond_validity', 'lam', 'chat', 'n', 'frac_collapsed')
 
     def S_at(self, rho):
@@ -431,11 +431,21 @@ def oracle_for_element(case, res, e, x_e, value_e, est_e, fstep_e):
     #     extrapolation cannot remove: Taylor terms of order >= n + P at the largest step of the window]
     S, E = math.inf, math.inf
     nat = min(1.0, rv)           # natural radius used for the rounding scale of the cancellation-free schemes
+    m.cn_noise = 0.0
+    if cancel_free:
+        # a complex / bicomplex step evaluates the program in truncated Taylor arithmetic in binary64: its rounding is
+        # that of the n-th coefficient under eps-perturbations of every node (ill-conditioned intermediates such as
+        # x * (1/x) at small x show up here, not in the size of f), measured on the jet recurrences
+        try:
+            prng = np.random.default_rng([int(abs(float(x_e)) * 1e6) % (2 ** 31), n, 7])
+            m.cn_noise = float(math.factorial(n)) * jets.coefficient_noise(tree, x_e, n, jctx(), prng, exact=coefs[n])
+        except Exception:
+            m.cn_noise = 0.0
     for i in range(0, len(rhos) - W + 1):
         if rhos[i] > rv:
             continue
         if cancel_free:
-            sw = s_of_rho(chat, n, max(rhos[i + W - 1], nat))
+            sw = max(s_of_rho(chat, n, max(rhos[i + W - 1], nat)), m.cn_noise / EPS)
         else:
             sw = max(s_of_rho(chat, n, rhos[i]), s_of_rho(chat, n, rhos[i + W - 1]))
         S = min(S, sw)
@@ -460,7 +470,7 @@ def oracle_for_element(case, res, e, x_e, value_e, est_e, fstep_e):
     if fstep_e is not None and np.isfinite(fstep_e) and abs(fstep_e) > 0:
         if cancel_free:
             grid = [t for t in tries if t <= min(1.0, rv)] or [rv]
-            m.floor = EPS * min(s_of_rho(chat, n, r) for r in grid)
+            m.floor = max(EPS * min(s_of_rho(chat, n, r) for r in grid), m.cn_noise)
         else:
             m.floor = EPS * math.factorial(n) * chat[0] / abs(fstep_e) ** n
     else:
